@@ -7,7 +7,9 @@ feeds prescribed order streams through the REAL EngineBase.add_to_path) and a sc
 generator; the extracted Coq model is given the same draws and streams; the canonicalised
 results are compared.  Independently of the model the property's own statement (ensemble
 membership (i)-(vii), the acceptance threshold r <= n_old/n_new, index never an end point,
-old path untouched) is evaluated on the implementation's outputs.
+old path untouched) is evaluated on the implementation's outputs.  Family perm_*: the real
+run_md -> select_shoot -> shoot chain for [0-] moves in permeability set-ups (lambda_minus_one = 0.0,
+negative, positive, absent), oracle: status ACC => non-zero weight in the own ensemble.
 """
 import importlib.util  # noqa: F401
 import itertools
